@@ -154,6 +154,11 @@ def gen_record(rng, kind: str, version: int, quick: bool, ev: dict) -> dict:
     return rec
 
 
+def cl_ints() -> list:
+    return [127, 128, 255, 256, 65535, 65536, 2**32 - 1, 2**32, 2**64 - 1, -1, -32, -33, -128, -129, -32768, -32769,
+            -2**31, -2**31 - 1, -2**63]
+
+
 def nontrivial(rec: dict) -> bool:
     """>= 1 atom and >= 1 field that is not the constructor default"""
     if not rec["atoms"]:
@@ -368,7 +373,9 @@ def run_batch(ctx, tag: str, kind: str, version: int, recs: list, probe: dict, r
     keys = [k for k, _ in items if k not in errs]
     for k, e in errs.items():
         ctx.disagree("storing raised", inputs[k][2], f"{type(e).__name__}: {e}", "stored")
-    raws = cl.raw_values(path, keys)
+    import msgpack
+    rawb = cl.raw_bytes(path, keys)
+    raws = {k: msgpack.loads(b, use_list=False, strict_map_key=False) for k, b in rawb.items()}
     backs = cl.load(kind, path, keys)
     sch = probe["orders"][(kind, version)]["ser"]
     stoks = schema_tokens(sch, (probe["atom_dflt"], probe["bond_dflt"]))
@@ -393,19 +400,35 @@ def run_batch(ctx, tag: str, kind: str, version: int, recs: list, probe: dict, r
                 report(ctx, "C01:" + suffix, f"{kind} v{version}: {what}", kind, version, inp, replay)
             if count:
                 ctx.count("oracle:clean" if not diffs else "oracle:" + ",".join(sorted({d[0] for d in diffs})))
-        requests.append((" ".join([kind] + stoks + cl.record_tokens(inp)), wire_t, back_t, replay))
+        requests.append((" ".join([kind] + stoks + cl.record_tokens(inp)), wire_t, back_t, replay, rawb.get(k)))
     if count and len(ctx.samples) < 3 and keys:
         rec, inp, replay = inputs[keys[0]]
         ctx.sample({"kind": kind, "encoding": f"v{version}", "n_atoms": len(inp["atoms"]), "n_bonds": len(inp["bonds"]),
                     "record_tokens_head": replay["record"][:300]})
 
 
+def _nan_free(a: bytes, b: bytes) -> bool:
+    """byte comparison is skipped only when the two encodings differ inside a NaN (payload bits are hardware business)"""
+    import msgpack
+    try:
+        x = msgpack.loads(a, use_list=False, strict_map_key=False)
+        y = msgpack.loads(b, use_list=False, strict_map_key=False)
+    except Exception:  # noqa: BLE001
+        return True
+    return cl.canon_bin_nan(cl.canon_nan(cl.toks(x))) != cl.canon_bin_nan(cl.canon_nan(cl.toks(y))) or len(a) != len(b)
+
+
 def check_driver(ctx, requests: list):
     outs = ctx.driver([r[0] for r in requests])
-    for (line, wire_t, back_t, replay), out in zip(requests, outs):
+    for (line, wire_t, back_t, replay, rawb), out in zip(requests, outs):
         parts = out.split(" ")
+        if len(parts) > 3 and parts[1] == "B" and rawb is not None:
+            # byte-exact: what the library stored is the model's msgpack encoding of ser(input)
+            mb = b"" if parts[2] == "-" else bytes.fromhex(parts[2])
+            ctx.count("stored-bytes-compared")
+            if mb != rawb and _nan_free(rawb, mb):
+                ctx.disagree("stored bytes differ from pack(ser(input))", replay, rawb.hex()[:600], mb.hex()[:600])
         if parts[0] != "ok":
-            mw = parts[2:] if len(parts) > 2 and parts[1] == "W" else None
             if back_t is not None:
                 ctx.disagree("model cannot decode what the code decodes", replay, "read back", parts[0])
             continue
@@ -414,7 +437,7 @@ def check_driver(ctx, requests: list):
         except ValueError:
             ctx.disagree("malformed driver response", replay, "-", out[:200])
             continue
-        mw = cl.canon_bin_nan(cl.canon_nan(parts[2:kpos]))
+        mw = cl.canon_bin_nan(cl.canon_nan(parts[4:kpos]))
         mk = cl.canon_nan(parts[kpos + 1:])
         if wire_t is not None and mw != wire_t:
             ctx.disagree("raw stored tuple differs from N(ser(input))", replay, " ".join(wire_t)[:1500], " ".join(mw)[:1500])
@@ -474,7 +497,7 @@ def bundled(ctx, probe: dict, requests: list):
             ctx.case(f"bundled|{src.name}|{k}", nontrivial=nontrivial(s))
             wire_t = cl.canon_bin_nan(cl.canon_nan(cl.toks(raws[k])))
             # what was read is a fixed point: re-encoding gives the stored tuple, decoding that gives the object
-            requests.append((" ".join([kind] + stoks + cl.record_tokens(s)), wire_t, cl.canon_nan(cl.record_tokens(s)), replay))
+            requests.append((" ".join([kind] + stoks + cl.record_tokens(s)), wire_t, cl.canon_nan(cl.record_tokens(s)), replay, None))
             second.append(s)
         run_batch(ctx, f"second_{src.stem}", kind, version, second, probe, requests, count=False)
         # exactness of the second generation is part of run_batch's oracle (compare is typed-exact / f32-exact)
@@ -570,6 +593,24 @@ def run(ctx):
             continue
         if cl.canon_nan(cl.toks(real)) != cl.canon_nan(got.split(" ")):
             ctx.disagree("N differs from msgpack loads(dumps(v))", line, " ".join(cl.toks(real))[:800], got[:800])
+    # ---- the byte format itself: pack / unpack against the real msgpack ----
+    edge = [list(range(n)) for n in (15, 16, 17)] + [{str(i): i for i in range(n)} for n in (15, 16, 17)] + \
+           ["x" * n for n in (31, 32, 255, 256)] + [b"y" * n for n in (255, 256)] + cl_ints()
+    if not ctx.quick():
+        edge += [list(range(65536)), "x" * 65536, b"y" * 65536, {str(i): i for i in range(65536)}]
+    vals = trees + edge
+    plines = ["pack " + " ".join(cl.toks(t)) for t in vals]
+    for t, got in zip(vals, ctx.driver(plines)):
+        ctx.count("pack-vs-msgpack")
+        real = msgpack.dumps(t)
+        if (real.hex() or "-") != got and _nan_free(real, b"" if got in ("-", "unpackable") else bytes.fromhex(got)):
+            ctx.disagree("pack differs from msgpack.dumps", repr(t)[:200], real.hex()[:400], got[:400])
+    ulines = ["unpack " + (msgpack.dumps(t).hex() or "-") for t in vals]
+    for t, got in zip(vals, ctx.driver(ulines)):
+        ctx.count("unpack-vs-msgpack")
+        real = msgpack.loads(msgpack.dumps(t), use_list=False, strict_map_key=False)
+        if cl.canon_nan(cl.toks(real)) != cl.canon_nan(got.split(" ")):
+            ctx.disagree("unpack differs from msgpack.loads", repr(t)[:200], " ".join(cl.toks(real))[:400], got[:400])
     ctx.extra_cov.pop("_shrunk", None)
     ctx.extra_cov["probed_orders"] = {f"{k[0]}_v{k[1]}": v for k, v in probe["orders"].items()}
     ctx.extra_cov["proof_ok"] = pr.ok
